@@ -284,7 +284,7 @@ class Run:
                         bad.append((ev, v["v"]))
         return bad
 
-    def record_and_validate(self, n, seed_salt=0, maxlen=90, parse_only=50, chunks=None, pinned=None, host_alphabet=None, host_len=3, parser=None):
+    def record_and_validate(self, n, seed_salt=0, maxlen=90, parse_only=50, chunks=None, pinned=None, host_alphabet=None, host_len=3, parser=None, scan=None):
         """T-mode: seeded random drivers on the real code (vh record) -> TLC (Trace_Api.tla). Returns [(event, verdicts)]."""
         chunks = chunks or min(12, NCPU)
         pre = os.path.join(self.scratch, "trace%d.ev" % seed_salt)
@@ -292,6 +292,9 @@ class Run:
                "--corpus", os.path.join(VERIF, "vectors", "urltestdata.json"), "--maxlen", str(maxlen), "--parse-only-percent", str(parse_only)]
         if pinned:
             cmd += ["--pinned", json.dumps(pinned)]
+        if scan:
+            # novelty scan (harness/cmd/vh/scan.go): explore scan[0] generated calls on the real code, record the scan[1] rarest behaviour classes
+            cmd += ["--scan", str(scan[0]), "--scan-keep", str(scan[1]), "--scan-setter-percent", str(scan[2])]
         if host_alphabet:
             cmd += ["--host-alphabet", json.dumps(host_alphabet), "--host-len", str(host_len)]
         module = "Trace_Api"
@@ -314,6 +317,12 @@ class Run:
         nev = int(m.group(1))
         self.validated += nev
         self.executions += nev
+        ms = re.search(r"SCAN explored=(\d+) classes=(\d+) kept=(\d+)", p.stdout)
+        if ms:
+            self.executions += int(ms.group(1))
+            self.families.append({"family": "novelty-scan/%d" % seed_salt, "impl_calls_explored": int(ms.group(1)), "behaviour_classes": int(ms.group(2)),
+                                  "representatives_recorded": int(ms.group(3)), "impl_events_validated_by_tlc": nev, "events_not_ok": len(bad), "wall_s": round(time.time() - t0, 1)})
+            return bad, nev
         self.families.append({"family": "recorded-traces/%d" % seed_salt, "impl_events_recorded": nev, "histories": int(m.group(2)), "events_not_ok": len(bad),
                               "wall_s": round(time.time() - t0, 1)})
         return bad, nev
